@@ -337,6 +337,10 @@ def run(P: Program, R: Report, tier: str) -> None:
     paint_flow_pixels(P, R, A, "R01.12")
     apply_keeps_inverse_inputs(P, R, "R01.13")
     inverse_is_pure(P, R, "R01.14")
+    # ---- R01.15 a query of the data model never answers from a memo that some writer forgets to drop
+    from .memo import no_stale_memo
+
+    no_stale_memo(P, R, "R01.15")
 
 
 ATTR_READS = ("get_edge_attr", "get_node_attr", "_get_edge_attr", "_get_node_attr", "get_nodes_attr", "get_edges_attr")
